@@ -12,23 +12,11 @@
 // See the License for the specific language governing permissions and
 // limitations under the License.
 
+//go:build !verif
+
 package oidc
 
 import "time"
 
-// Clock represents a source of current time.
-type Clock struct {
-	// Override for time.Now.
-	NowFn func() time.Time
-}
-
-// Now returns the current local time.
-func (s *Clock) Now() time.Time {
-	if t, ok := verifNow(); ok {
-		return t
-	}
-	if s.NowFn != nil {
-		return s.NowFn()
-	}
-	return time.Now()
-}
+// verifNow is a no-op unless the binary is built with the `verif` tag.
+func verifNow() (time.Time, bool) { return time.Time{}, false }
